@@ -1,4 +1,4 @@
-import GtfsVerif.Lemmas.RealtimeVeh
+import GtfsVerif.Lemmas.RealtimeLinks
 /-! # C07 — realtime entities merge order-independently into unique, sorted trips / vehicles
 
 Model: `Gtfs.Rt.parse` (Model/Realtime.lean): the extension pre-pass, the merge loop
@@ -314,5 +314,101 @@ theorem C07_parse_vehicles_perm_invariant (ext : Ext) (m m' : Msg) (hp : m'.enti
   · intro v hv
     obtain ⟨p, hp', rfl⟩ := List.mem_map.mp hv
     rw [hid p ((List.mergeSort_perm _ le).subset hp')]; rfl
+
+end Gtfs.Rt
+
+namespace Gtfs.Rt
+
+/-! ## order independence of the links (conflict-free messages) -/
+
+theorem tripVehicle_perm_invariant (ext : Ext) (es es' : List (Entity × Bool)) (hp : es'.Perm es)
+    (hcfV : ConflictFreeVehicles ext es) (hfun : FunctionalLinks (allItems ext es)) (t : TripID) :
+    tripVehicle (runEntities ext es') t = tripVehicle (runEntities ext es) t := by
+  rw [tripVehicle_items, tripVehicle_items]
+  have hit := allItems_perm ext es es' hp
+  have hrev : (allItems ext es').reverse.Perm (allItems ext es).reverse :=
+    (List.reverse_perm _).trans (hit.trans (List.reverse_perm _).symm)
+  have hfs : (allItems ext es').reverse.findSome? (linkOfTrip t) = (allItems ext es).reverse.findSome? (linkOfTrip t) := by
+    apply findSome?_perm_of_const _ _ _ hrev
+    intro a ha b hb x y
+    exact hfun.1 t a (List.mem_reverse.mp ha) b (List.mem_reverse.mp hb) x y
+  rw [hfs]
+  cases (allItems ext es).reverse.findSome? (linkOfTrip t) with
+  | some vid => exact C07_vehicle_table_perm_invariant ext es es' hp hcfV vid
+  | none =>
+    simp only
+    have : ((idless (allItems ext es')).filter fun it => it.2 == some t) = ((idless (allItems ext es)).filter fun it => it.2 == some t) := by
+      apply perm_eq_of_length_le_one _ _ _ (hfun.2.1 t)
+      exact ((hit.filter _).filter _)
+    rw [this]
+
+/-- **C07 (order independence of Trips, Vehicles and the links between them).** For a message
+    without conflicting duplicates or associations, any permutation of its entities yields the same
+    `Trips` – identifiers, order, data and the vehicle each trip refers to – and the same `Vehicles`:
+    the identified ones identical (order, data and the trip each refers to), the id-less ones the
+    same multiset, each with the trip of its own entity. -/
+theorem C07_parse_perm_invariant (ext : Ext) (m m' : Msg) (hp : m'.entities.Perm m.entities)
+    (ht : m'.timestamp = m.timestamp) (hext : ∀ o, ext ≠ .alerts o)
+    (hcfT : ConflictFreeTrips ext (prepass ext m)) (hcfV : ConflictFreeVehicles ext (prepass ext m))
+    (hfun : FunctionalLinks (allItems ext (prepass ext m))) :
+    (parse ext m').trips = (parse ext m).trips ∧
+    ∃ withId noId noId' : List VehicleOut,
+      (parse ext m).vehicles = withId ++ noId ∧ (parse ext m').vehicles = withId ++ noId' ∧ noId'.Perm noId := by
+  have hpp := prepass_perm ext m m' hp ht hext
+  unfold parse finish
+  simp only
+  generalize prepass ext m = es at hcfT hcfV hfun hpp
+  generalize prepass ext m' = es' at hpp
+  have htrips := C07_trip_table_perm_invariant ext es es' hpp hcfT
+  have hsortedT := C07_trips_perm_invariant ext es es' hpp hcfT
+  obtain ⟨_, hnd, _, _⟩ := runEntities_inv ext es
+  obtain ⟨_, hnd', _, _⟩ := runEntities_inv ext es'
+  let le := fun (a b : VehicleID × VehData) => !vehLess b.1 a.1
+  have hle : le = fun (a b : VehicleID × VehData) => !vehKeyLt (vehKey b.1) (vehKey a.1) := by
+    funext a b; simp only [le, vehLess_eq_key]
+  have hsortedV : (runEntities ext es').vehicles.mergeSort le = (runEntities ext es).vehicles.mergeSort le := by
+    rw [hle]
+    exact sorted_eq_of_lookup_eq vehKeyLt sto_vehKeyLt vehKey vehKey_injective _ _ hnd' hnd
+      (C07_vehicle_table_perm_invariant ext es es' hpp hcfV)
+  have hv2t : ∀ vid, alookup vid (runEntities ext es').vehToTrip = alookup vid (runEntities ext es).vehToTrip := by
+    intro vid
+    rw [vehToTrip_items, vehToTrip_items]
+    have hit := allItems_perm ext es es' hpp
+    have hrev : (allItems ext es').reverse.Perm (allItems ext es).reverse :=
+      (List.reverse_perm _).trans (hit.trans (List.reverse_perm _).symm)
+    apply findSome?_perm_of_const _ _ _ hrev
+    intro a ha b hb x y
+    exact hfun.2.2 vid a (List.mem_reverse.mp ha) b (List.mem_reverse.mp hb) x y
+  constructor
+  · rw [hsortedT]
+    apply List.map_congr_left
+    intro p _
+    rw [tripVehicle_perm_invariant ext es es' hpp hcfV hfun]
+  · refine ⟨((runEntities ext es).vehicles.mergeSort le).map fun p =>
+        ({ data := p.2, trip := (alookup p.1 (runEntities ext es).vehToTrip).bind fun t => alookup t (runEntities ext es).trips } : VehicleOut),
+      (runEntities ext es).noId.mapIdx fun i v =>
+        ({ data := v, trip := (tripOfNoId (runEntities ext es) i).bind fun t => alookup t (runEntities ext es).trips } : VehicleOut),
+      (runEntities ext es').noId.mapIdx fun i v =>
+        ({ data := v, trip := (tripOfNoId (runEntities ext es') i).bind fun t => alookup t (runEntities ext es').trips } : VehicleOut),
+      rfl, ?_, ?_⟩
+    · congr 1
+      rw [hsortedV]
+      apply List.map_congr_left
+      intro p _
+      rw [hv2t]
+      cases alookup p.1 (runEntities ext es).vehToTrip with
+      | none => rfl
+      | some t => simp only [Option.bind_some, htrips]
+    · rw [noId_out_items, noId_out_items]
+      have hid : (idless (allItems ext es')).Perm (idless (allItems ext es)) := (allItems_perm ext es es' hpp).filter _
+      have hf : (fun it : VehData × Option TripID =>
+            ({ data := it.1, trip := it.2.bind fun t => alookup t (runEntities ext es').trips } : VehicleOut))
+          = fun it => { data := it.1, trip := it.2.bind fun t => alookup t (runEntities ext es).trips } := by
+        funext it
+        cases it.2 with
+        | none => rfl
+        | some t => simp only [Option.bind_some, htrips]
+      rw [hf]
+      exact hid.map _
 
 end Gtfs.Rt
